@@ -135,6 +135,11 @@ def c15(pid, tier, replay):
              "%%\n\\+ '+'\n\\* '*'\n- '-'\n/ '/'\nn 'n'\n", False),
             ("gboth-l1", p_ct.G["gboth"], p_ct.L["l1"], False),
             ("grr3", "%start S\n%%\nS: A 'a' | B 'a' | C 'a' | A 'b' | B 'b' | C 'b';\nA: 'c';\nB: 'c';\nC: 'c';\n", LANY, False)]
+    LNAMED = "%%\na 'a'\nb 'b'\nq 'q'\nv 'v'\nx 'x'\ny 'y'\nz 'z'\nw 'w'\n[ ]+ ;\n"
+    for c in catalog.select():
+        if c["id"] in ("cat-core-reduces3", "cat-core-reduces4"):
+            # three or more distinct reductions in one state; eight named token constants in the lexer
+            mods.append((c["id"], c["y"], LNAMED, False))
     cand = [i for i in insts if i["kind"] in ("original", "original_noaction") and not i["id"].startswith("doc")]
     rng3 = random.Random(seed * 7 + 3)
     rng3.shuffle(cand)
@@ -185,8 +190,8 @@ def c15(pid, tier, replay):
     res.cov["traces_validated_against_impl"] += len(lines)
     # (4) first use of generated parsers from 8 threads at once, in fresh processes
     rng = random.Random(seed * 31 + 15)
-    pairs = [p_ctrt.gen_pair(rng, i) for i in range(4)]
-    pairs = [p_ctrt.fix_pair(p) for p in pairs]
+    pairs = [p_ctrt.gen_pair(rng, i) for i in range(8)]
+    pairs = p_ctrt.buildable([p_ctrt.fix_pair(p) for p in pairs], res.wd)[:4]
     inputs = {p["id"]: [x for x in p_ctrt.gen_inputs(p, rng, 6) if x][:3] or ["a"] for p in pairs}
     cd = os.path.join(res.wd, "ctgen")
     p_ctrt.gen_crate(cd, pairs, inputs)
